@@ -58,6 +58,9 @@ TREES = {
               S("r/lrel", "a/f1"), S("r/labs", "@TREE@/r/a/b/f2"), S("r/dangling", "nowhere"),
               S("r/drel", "a/b"), S("r/dabs", "@TREE@/r/a"), S("r/loop", "."), S("r/a/up", ".."),
               S("r/out", "../outside"), S("r/outf", "../outside/o1"), S("r/a/chain", "../lrel")],
+    # absolute symlink targets that are not canonical: through another directory symlink, or containing '..'
+    "links2": [F("r/real/x"), F("r/real/sub/y"), S("r/alias", "real"), S("r/abs_via_alias", "@TREE@/r/alias"),
+               S("r/abs_dotdot", "@TREE@/r/real/../real/sub"), S("r/abs_file", "@TREE@/r/alias/x"), F("r/other/z")],
     "names": [F("r/d-1/x"), F("r/v.2/x"), F("r/v.2/sub/x"), F("r/ż/x"), F("r/ż/bcd/x"), F("r/x+y(1)/x"),
               F("r/[b]/x"), F("r/a.1z/x"), F("r/v/x"), F("r/vv/x"), F("r/v-2/sub/x"), F("r/d-1/x.txt"), F("r/V.2/X")],
     "sizes": [F("r/s0", 0), F("r/s1", 1), F("r/s2", 2), F("r/s100", 100), F("r/d/s2b", 2, 9), F("r/d/s1b", 1, 9)],
@@ -65,7 +68,7 @@ TREES = {
     # two sibling directories whose names differ only by case; cwd-relative patterns are tried from inside one of them
     "casecwd": [F("r/src/x"), F("r/src/d/x.txt"), F("R/src/x"), F("R/src/d/x.txt"), F("R/other/x")],
 }
-QUICK_TREES = ["nest", "ignore", "links", "names"]
+QUICK_TREES = ["nest", "ignore", "links", "names", "links2"]
 
 NAME_PATTERNS = ["x", "*.txt", "f?", "[fx]*", "{x,y}.txt", "X", "*.LOG", "\\x"]
 PATH_PATTERNS = ["r/**/x", "r/d1/*", "r/**/*.txt", "r/v.2/**", "r/ż/b*/x", "r/a.1*/x", "r/d-1/**", "r/v-2/**/x",
